@@ -377,6 +377,19 @@ struct terminal_script
                 std::string inner = r.word();
                 if (!apply_terminal_op_to(inner, r, to_one_named{*t})) { res += "?op "; return; }
             }
+            else if (op == "ux") {
+                // the operation is performed from a destructor running while an UNRELATED exception unwinds the stack
+                // (std::uncaught_exceptions() == 1 while the library runs), as a clean-up handler would
+                std::string inner = r.word();
+                bool ok = true;
+                struct during_unwind { std::function<void()> f; ~during_unwind() { f(); } };
+                try {
+                    during_unwind guard{[&] { ok = apply_terminal_op(inner, r, *t); }};
+                    throw std::runtime_error("unrelated failure");
+                }
+                catch (std::runtime_error const &) {}
+                if (!ok) { res += "?op "; return; }
+            }
             else if (!apply_terminal_op(op, r, *t)) { res += "?op "; return; }
         }
         catch (std::exception const &) { threw = true; }
